@@ -780,6 +780,9 @@ def run(index: RepoIndex, rep) -> None:
               'select_kwargs does not keep exactly the accepted parameters: e.g. a reward '
               'configured as 0.0 would silently fall back to its non-zero default',
               'parameters reach the component')
+    # ... through factories that hand the configured parameters on unchanged (C17.R4)
+    from .c17 import factory_rules
+    factory_rules(index, rep, 'C12.R4')
     # ---- wiring (normal form: helpers, private methods and transition_with_copy inlined)
     from ..view import step_wiring
     sw = step_wiring(index)
